@@ -13,6 +13,7 @@ pub mod fasta {
     use super::stdspecs::*;
     use super::vx_panic;
     use core::slice;
+    use core::str::{self, Utf8Error};
     use core::iter::Iterator as StdIterator;
     use vstd::std_specs::iter::IteratorSpec;
     use vstd::std_specs::iter::DoubleEndedIteratorSpec;
@@ -1145,6 +1146,68 @@ pub mod fasta {
         requires self.rwf(), wrap > 0,
         ensures
             [C10|fasta.Record.write_wrap] r is Ok && self.seq_s().len() > 0 ==> writer.fin() == writer.written() + fa_head_r(self.head_s()) + wrap_lines(self.seq_s(), wrap as int),
+//@end
+}
+
+    /// Shadow of `trait Record` without implementors (same tool quirk as for FASTQ): the default methods are verified
+    /// here, for an arbitrary implementor that meets the contract of `head()`.
+trait RecordD {
+    spec fn rwf(&self) -> bool;
+    spec fn head_s(&self) -> Seq<u8>;
+//@sig fasta::Record::head ret=r tags=C13 as=fasta::RecordD::head
+//@spec
+        requires self.rwf(),
+        ensures
+            r@ == self.head_s(),
+//@end
+
+//@fn fasta::Record::id_bytes ret=r tags=C13,C06
+//@spec
+        requires self.rwf(),
+        ensures
+            [C13|fasta.Record.id_bytes] r@ == id_of(self.head_s()),
+//@body_start
+        broadcast use lemma_split_cut, lemma_split_cut2;
+//@closure 0 params="b: &u8" ret="(r: bool)"
+            ensures r == (*b == 32u8)
+//@end
+
+//@fn fasta::Record::id ret=r tags=C13
+//@spec
+        requires self.rwf(),
+        ensures
+            [C13|fasta.Record.id] (r is Ok <==> valid_utf8(id_of(self.head_s()))) && (r matches Ok(t) ==> str_bytes(t) == id_of(self.head_s())),
+//@end
+
+//@fn fasta::Record::desc_bytes ret=r tags=C13,C06
+//@spec
+        requires self.rwf(),
+        ensures
+            [C13|fasta.Record.desc_bytes] (r matches Some(d) ==> desc_of(self.head_s()) == Some(d@)) && (r is None ==> desc_of(self.head_s()) is None),
+//@body_start
+        broadcast use lemma_split_cut, lemma_split_cut2;
+//@closure 0 params="b: &u8" ret="(r: bool)"
+            ensures r == (*b == 32u8)
+//@end
+
+//@fn fasta::Record::desc ret=r tags=C13
+//@spec
+        requires self.rwf(),
+        ensures
+            [C13|fasta.Record.desc] (r is None <==> desc_of(self.head_s()) is None)
+                && (r matches Some(x) ==> (x is Ok <==> valid_utf8(desc_of(self.head_s()).unwrap())) && (x matches Ok(t) ==> str_bytes(t) == desc_of(self.head_s()).unwrap())),
+//@end
+
+//@fn fasta::Record::id_desc_bytes ret=r tags=C13,C06
+//@spec
+        requires self.rwf(),
+        ensures
+            [C13|fasta.Record.id_desc_bytes] r.0@ == id_of(self.head_s())
+                && (r.1 matches Some(d) ==> desc_of(self.head_s()) == Some(d@)) && (r.1 is None ==> desc_of(self.head_s()) is None),
+//@body_start
+        broadcast use lemma_split_cut, lemma_split_cut2;
+//@closure 0 params="c: &u8" ret="(r: bool)"
+            ensures r == (*c == 32u8)
 //@end
 }
 
